@@ -50,6 +50,8 @@ class Obligation:
             d['model'] = self.model
         if self.detail:
             d['detail'] = self.detail
+        if getattr(self, 'model_only', False):
+            d['model_only'] = True
         return d
 
 
@@ -361,6 +363,7 @@ class Explorer:
         self.sample_budget = 2
         self.unknown_branches = 0
         self.tactic = tactic
+        self.rlimit_per_ms = int(os.environ.get('VERIF_RLIMIT_PER_MS', '3000'))
         self.debug_full_model = bool(os.environ.get('VERIF_DEBUG_MODEL'))
 
     def new_solver(self, timeout_ms):
@@ -369,6 +372,11 @@ class Explorer:
         else:
             s = z3.Solver()
         s.set('timeout', int(timeout_ms))
+        try:
+            # the wall-clock timeout is cooperative and not honoured in every phase of nlsat; the resource limit is
+            s.set('rlimit', int(timeout_ms) * self.rlimit_per_ms)
+        except z3.Z3Exception:
+            pass
         return s
 
     def explore(self, fn, make_world):
